@@ -77,7 +77,7 @@ func init() {
 		objectPut,
 		objectHasProperty,
 		objectHasOwnProperty,
-		objectDefineOwnProperty,
+		stringDefineOwnProperty,
 		objectDelete,
 		stringEnumerate,
 		objectClone,
